@@ -9,7 +9,8 @@
   MODEL.  `filterPair k f tok l r` (`filter_pair` of the filter of kind `k : FilterKind`; `true` = dropped),
   `filterTables k f a t toks cpu` (`filter_tables`: validations, projection, dropna, chunking by `n_jobs`,
   `_filter_tables_split` per chunk, missing-value pairs, `_id`) and `filterCandset a fp cpu` (`filter_candset`, for any
-  filter given as its `filter_pair`), all in SSJ/Model/Frame.lean, Matcher.lean; `overlapFilterPair` for OverlapFilter.
+  filter given as its `filter_pair` — a Python call `fp : Cell → Cell → Except PyErr Bool` that raises TypeError on a
+  present non-string value: `filterPairPy k f tok`, `overlapFilterPairPy f tok`), all in SSJ/Model/Frame.lean, Matcher.lean; `overlapFilterPair` for OverlapFilter.
   A filter object `f : FilterObj` carries measure, threshold, q (`f.cfg`), `allowEmpty`, `allowMissing`.
 
   WHAT IS PROVED (measure × filter):
@@ -34,6 +35,13 @@
                                pair it references), hence `candset_safe_of_pair`; instance `candset_safe` for
                                JACCARD / COSINE / DICE (the other measures: combine `candset_safe_of_pair` with the
                                corresponding `pair_safe_*`).
+
+  BODY CONDITIONS (SSJ/Props/Common.lean).  `tables_returns_frame` (which CONCLUDES that `filter_tables` returns) assumes
+  `BodyOK`: present filter values are strings (else TypeError), no `_id` in the output header (else ValueError);
+  `candset_keeps_iff` that `filter_pair` does not raise on the values of the two columns (instance for the four filters
+  on string columns: `candset_keeps_iff_filter`).  The safety theorems take a returned frame `… = .ok fr` as hypothesis
+  and need nothing more (`filter_pair`'s answers, when it returns, are those of the pure `filterPair`:
+  `SSJ.filterPairPy_ok_eq`).
 
   HYPOTHESES / SCOPE in plain words.
     * Set measures: the threshold `thr` is a double with `2⁻²⁰ ≤ thr ≤ 1` (`ThrOK`; the validation allows `0 < thr ≤ 1`,
@@ -148,11 +156,13 @@ end SetMeasures
 
 /-! ### filter_tables -/
 
-/-- with valid table arguments `filter_tables` returns a frame (any filter kind, any filter object) -/
+/-- with valid table arguments, string filter columns and an output header without `_id` (`BodyOK`) `filter_tables`
+    returns a frame (any filter kind, any filter object); without `BodyOK` it raises (`C15.filter_tables_body`) -/
 theorem tables_returns_frame (k : FilterKind) (f : FilterObj) (a : TableArgs) (t : TokObj) (toks : TokFn) (cpu : Int)
-    (l r : Frame) (hv : validateTablesAttrs a = .ok (l, r)) (hk : validateOutAndKeys a l r = .ok ()) :
+    (l r : Frame) (hv : validateTablesAttrs a = .ok (l, r)) (hk : validateOutAndKeys a l r = .ok ())
+    (hb : BodyOK a l r false) :
     ∃ fr, filterTables k f a t toks cpu = .ok fr :=
-  EntryFilters.filterTables_total k f a t toks cpu l r hv hk
+  EntryFilters.filterTables_total k f a t toks cpu l r hv hk hb
 
 section SetMeasuresTables
 variable (m : Measure) (hm : SetMeasure m) (thr : Rat) (ht : ThrOK thr)
@@ -354,22 +364,38 @@ section Candset
 /-- `filter_candset` of ANY filter (given as its `filter_pair`, `fp`): with valid arguments it returns a frame with the
     candidate set's columns which keeps a candidate row iff `filter_pair` does not drop the join values of the two
     table rows the candidate row references; any `n_jobs` -/
-theorem candset_keeps_iff (a : CandsetArgs) (fp : Cell → Cell → Bool) (cpu : Int) (c l r : Frame)
-    (hval : EntryFilters.CandsetValid a c l r) :
+theorem candset_keeps_iff (a : CandsetArgs) (fp : Cell → Cell → Except PyErr Bool) (fpb : Cell → Cell → Bool)
+    (cpu : Int) (c l r : Frame) (hval : EntryFilters.CandsetValid a c l r)
+    (hfp : ∀ ls ∈ l.rows, ∀ rs ∈ r.rows,
+      fp (valOf l a.lAttr ls) (valOf r a.rAttr rs) = .ok (fpb (valOf l a.lAttr ls) (valOf r a.rAttr rs))) :
     ∃ fr, filterCandset a fp cpu = .ok fr ∧ fr.columns = c.columns ∧
       ∀ cr ∈ c.rows, ∀ ls ∈ l.rows, ∀ rs ∈ r.rows,
         keyOf l a.lKey ls = cr.cell (c.colIdx a.candLKey) → keyOf r a.rKey rs = cr.cell (c.colIdx a.candRKey) →
-        (cr ∈ fr.rows ↔ fp (valOf l a.lAttr ls) (valOf r a.rAttr rs) = false) :=
-  EntryFilters.filterCandset_keeps a fp cpu c l r hval
+        (cr ∈ fr.rows ↔ fpb (valOf l a.lAttr ls) (valOf r a.rAttr rs) = false) :=
+  EntryFilters.filterCandset_keeps a fp fpb cpu c l r hval hfp
 
-/-- hence: whenever `filter_pair` keeps the referenced pair, `filter_candset` keeps the candidate row -/
-theorem candset_safe_of_pair (a : CandsetArgs) (fp : Cell → Cell → Bool) (cpu : Int) (c l r fr : Frame)
+/-- the instance for the four filters: with string filter columns `filter_pair` never raises (`filterPairPy` answers
+    `filterPair`), so `filter_candset` returns and keeps a row iff `filterPair` does not drop its pair -/
+theorem candset_keeps_iff_filter (k : FilterKind) (f : FilterObj) (tok : String → List Tok) (a : CandsetArgs) (cpu : Int)
+    (c l r : Frame) (hval : EntryFilters.CandsetValid a c l r)
+    (hsl : StrColumn l a.lAttr) (hsr : StrColumn r a.rAttr) :
+    ∃ fr, filterCandset a (filterPairPy k f tok) cpu = .ok fr ∧ fr.columns = c.columns ∧
+      ∀ cr ∈ c.rows, ∀ ls ∈ l.rows, ∀ rs ∈ r.rows,
+        keyOf l a.lKey ls = cr.cell (c.colIdx a.candLKey) → keyOf r a.rKey rs = cr.cell (c.colIdx a.candRKey) →
+        (cr ∈ fr.rows ↔ filterPair k f tok (valOf l a.lAttr ls) (valOf r a.rAttr rs) = false) :=
+  candset_keeps_iff a _ _ cpu c l r hval (filterPairPy_columns k f tok l r a.lAttr a.rAttr hsl hsr)
+
+/-- hence: whenever the call returned a frame and `filter_pair` — a Python call `fp` whose answers, when it does not
+    raise, are those of the total function `fpb` — keeps the referenced pair, `filter_candset` keeps the candidate row -/
+theorem candset_safe_of_pair (a : CandsetArgs) (fp : Cell → Cell → Except PyErr Bool) (fpb : Cell → Cell → Bool)
+    (hfp : ∀ x y b, fp x y = .ok b → b = fpb x y) (cpu : Int) (c l r fr : Frame)
     (hval : EntryFilters.CandsetValid a c l r) (hres : filterCandset a fp cpu = .ok fr)
     (cr ls rs : Row) (hcr : cr ∈ c.rows) (hls : ls ∈ l.rows) (hrs : rs ∈ r.rows)
     (hkl : keyOf l a.lKey ls = cr.cell (c.colIdx a.candLKey)) (hkr : keyOf r a.rKey rs = cr.cell (c.colIdx a.candRKey))
-    (hpair : fp (valOf l a.lAttr ls) (valOf r a.rAttr rs) = false) : cr ∈ fr.rows := by
-  obtain ⟨fr', hfr', -, h⟩ := candset_keeps_iff a fp cpu c l r hval
-  rw [hres] at hfr'
+    (hpair : fpb (valOf l a.lAttr ls) (valOf r a.rAttr rs) = false) : cr ∈ fr.rows := by
+  have hres' := filterCandset_ok_pure a fp fpb hfp cpu fr hres
+  obtain ⟨fr', hfr', -, h⟩ := candset_keeps_iff a (fun x y => .ok (fpb x y)) fpb cpu c l r hval (fun _ _ _ _ => rfl)
+  rw [hres'] at hfr'
   cases Except.ok.inj hfr'
   exact (h cr hcr ls hls rs hrs hkl hkr).2 hpair
 
@@ -381,14 +407,14 @@ theorem candset_safe (k : FilterKind) (m : Measure) (hm : SetMeasure m) (thr : R
     (h4 : k = .suffix → prefThr m ≤ thr)
     (tok : String → List Tok) (hnd : ∀ s, (tok s).Nodup) (hsm : ∀ s, (tok s).length < 2 ^ 32)
     (a : CandsetArgs) (cpu : Int) (c l r fr : Frame)
-    (hval : EntryFilters.CandsetValid a c l r) (hres : filterCandset a (filterPair k f tok) cpu = .ok fr)
+    (hval : EntryFilters.CandsetValid a c l r) (hres : filterCandset a (filterPairPy k f tok) cpu = .ok fr)
     (cr ls rs : Row) (hcr : cr ∈ c.rows) (hls : ls ∈ l.rows) (hrs : rs ∈ r.rows)
     (hkl : keyOf l a.lKey ls = cr.cell (c.colIdx a.candLKey)) (hkr : keyOf r a.rKey rs = cr.cell (c.colIdx a.candRKey))
     (hlp : Present l a.lAttr ls) (hrp : Present r a.rAttr rs)
     (hne : ¬ ((tokensOf tok l a.lAttr ls).length = 0 ∧ (tokensOf tok r a.rAttr rs).length = 0))
     (s : Rat) (hs : simSet m (tokensOf tok l a.lAttr ls) (tokensOf tok r a.rAttr rs) = .float s) (hq : thr ≤ s) :
     cr ∈ fr.rows :=
-  candset_safe_of_pair a _ cpu c l r fr hval hres cr ls rs hcr hls hrs hkl hkr
+  candset_safe_of_pair a _ _ (filterPairPy_ok_eq k f tok) cpu c l r fr hval hres cr ls rs hcr hls hrs hkl hkr
     (EntryFilters.filterPair_safe_set k m hm thr ht f hmeas hthr tok hnd hsm _ _ hlp hrp hne s hs hq h4)
 
 end Candset
@@ -409,7 +435,7 @@ example : filterPair .position { cfg := { measure := .jaccard, threshold := .flo
 example : ∃ fr, filterTables .suffix { cfg := cfgOf .jaccard (1 / 4) } exA exT exToks 4 = .ok fr ∧
     ∃ row ∈ fr.rows, rowKeys row = (Cell.int 1, Cell.int 7) := by
   obtain ⟨fr, hfr⟩ := tables_returns_frame .suffix { cfg := cfgOf .jaccard (1 / 4) } exA exT exToks 4 exL exR
-    ex_valid ex_keys
+    ex_valid ex_keys (by decide +kernel)
   refine ⟨fr, hfr, ?_⟩
   exact tables_safe_suffix .jaccard (Or.inl rfl) (1 / 4) ex_thr _ rfl rfl exA exT exToks 4 exL exR fr ex_valid ex_keys
     (by decide) exTok_nodup exTok_small (by norm_num [prefThr]) hfr [.int 1, .str "x"] [.int 7, .str "y"]
@@ -437,10 +463,10 @@ theorem exCA_valid : EntryFilters.CandsetValid exCA exC exL exR :=
   ⟨rfl, rfl, rfl, by decide, by decide, by decide, by decide, by decide, by decide, by decide, by decide, by decide,
     by decide, by decide, by decide⟩
 
-example : ∃ fr, filterCandset exCA (filterPair .prefix { cfg := cfgOf .jaccard (1 / 4) } exTok) 4 = .ok fr ∧
+example : ∃ fr, filterCandset exCA (filterPairPy .prefix { cfg := cfgOf .jaccard (1 / 4) } exTok) 4 = .ok fr ∧
     [Cell.int 0, .int 1, .int 7] ∈ fr.rows := by
-  obtain ⟨fr, hfr, -, -⟩ := candset_keeps_iff exCA (filterPair .prefix { cfg := cfgOf .jaccard (1 / 4) } exTok) 4
-    exC exL exR exCA_valid
+  obtain ⟨fr, hfr, -, -⟩ := candset_keeps_iff_filter .prefix { cfg := cfgOf .jaccard (1 / 4) } exTok exCA 4
+    exC exL exR exCA_valid (by decide) (by decide)
   exact ⟨fr, hfr, candset_safe .prefix .jaccard (Or.inl rfl) (1 / 4) ex_thr _ rfl rfl (fun h => by cases h) exTok
     exTok_nodup exTok_small exCA 4 exC exL exR fr exCA_valid hfr _ [.int 1, .str "x"] [.int 7, .str "y"]
     (by decide) (by decide) (by decide) (by decide) (by decide) (by unfold Present; decide) (by unfold Present; decide)
